@@ -10,7 +10,7 @@ use std::ffi::OsString;
 
 pub static DEF: PropDef = PropDef {
     id: "C06",
-    rule: "random: argument count log-uniform in [1, 400000] x length profile {all 1 byte, 1-20 bytes, page-sized, mostly small with a few within 0-2 bytes of the per-argument limit (131071 bytes + NUL), mixed} (total input capped at ~12 MB) x environment size {minimal, 1/4, 3/4 of the kernel budget, spread over few large or many small variables} x RLIMIT_STACK {256 KiB, 1 MiB, 8 MiB, 64 MiB, unlimited} (kernel budget 128 KiB .. 6 MiB; set with setrlimit in the child before exec) x options {none, -n N, -s S (also S above the system limit), -L N}; NUL-separated input. A third sub-run runs xargs -I{} with templates holding 1-8 occurrences of {} per argument on lines sized so that the SUBSTITUTED arguments approach or exceed the per-argument limit or the whole budget. A second sub-run places one argument of 131072..400000 bytes (over the per-argument limit) at a random position. Oracle: the kernel itself - the built xargs binary runs the rec recorder; violation iff xargs exits 126 / reports 'Argument list too long' / any other status than 0, or the concatenation of the recorded arguments differs from the input (nothing lost, duplicated or reordered); for an oversized argument: exit status 1, a diagnostic, and no recorded invocation contains it or anything after it. Non-trivial = total argv bytes + 8 bytes of pointer per argument exceed the kernel budget of the chosen stack limit (>= 2 invocations are required), or an argument within 2 bytes of the per-argument limit is present. Distinct = distinct case JSON.",
+    rule: "random: argument count log-uniform in [1, 400000] x length profile {all 1 byte, 1-20 bytes, page-sized, mostly small with a few within 0-2 bytes of the per-argument limit (131071 bytes + NUL), mixed} (total input capped at ~12 MB) x environment size {minimal, 1/4, 3/4 of the kernel budget, spread over few large or many small variables} x RLIMIT_STACK {256 KiB, 1 MiB, 8 MiB, 64 MiB, unlimited} (kernel budget 128 KiB .. 6 MiB; set with setrlimit in the child before exec) x fixed arguments after the command {none, 3000, 9000, 20000, 60000 bytes: part of every command line} x options {none, -n N, -s S (also S above the system limit), -L N}; NUL-separated input. A third sub-run runs xargs -I{} with templates holding 1-8 occurrences of {} per argument on lines sized so that the SUBSTITUTED arguments approach or exceed the per-argument limit or the whole budget. A second sub-run places one argument of 131072..400000 bytes (over the per-argument limit) at a random position. Oracle: the kernel itself - the built xargs binary runs the rec recorder; violation iff xargs exits 126 / reports 'Argument list too long' / any other status than 0, or the concatenation of the recorded arguments differs from the input (nothing lost, duplicated or reordered); for an oversized argument: exit status 1, a diagnostic, and no recorded invocation contains it or anything after it. Non-trivial = total argv bytes + 8 bytes of pointer per argument exceed the kernel budget of the chosen stack limit (>= 2 invocations are required), or an argument within 2 bytes of the per-argument limit is present. Distinct = distinct case JSON.",
     assumptions: &[
         "Linux: per-argument limit MAX_ARG_STRLEN = 131072 bytes including the terminator; total budget max(min(RLIMIT_STACK/4, 6 MiB), 128 KiB) for strings plus one pointer per argument and environment entry",
         "the running kernel of this sandbox is the oracle for 'accepted by exec'",
@@ -43,6 +43,9 @@ pub struct Case {
     /// characters (bytes != characters), 2 bytes that are not valid UTF-8
     #[serde(default)]
     pub content: u8,
+    /// bytes of fixed (initial) arguments after the command: they are part of every command line
+    #[serde(default)]
+    pub fixed: u32,
 }
 
 fn fill(len: usize, i: usize, content: u8) -> Vec<u8> {
@@ -152,7 +155,7 @@ pub fn gen_case(g: &mut Gen) -> Case {
         let e = g.below(10_000) as f64 / 10_000.0 * max_exp;
         (2f64.powf(e) as usize).clamp(1, 400_000)
     };
-    Case { count, profile, len_seed: g.u64_any(), env: (g.weighted(&[3, 2, 2]) as u8) | if g.bool() { 16 } else { 0 }, stack, opt: g.weighted(&[5, 2, 3, 1]) as u8, opt_value: 0, oversize: None, content: g.weighted(&[3, 2, 1]) as u8 }
+    Case { count, profile, len_seed: g.u64_any(), env: (g.weighted(&[3, 2, 2]) as u8) | if g.bool() { 16 } else { 0 }, stack, opt: g.weighted(&[5, 2, 3, 1]) as u8, opt_value: 0, oversize: None, content: g.weighted(&[3, 2, 1]) as u8, fixed: g.pick(&[0u32, 0, 0, 0, 3000, 9000, 20000, 60000]) }
 }
 
 fn finish_opts(g: &mut Gen, mut c: Case) -> Case {
@@ -268,8 +271,30 @@ pub fn check(ctx: &mut Ctx, c: &Case) -> Outcome {
     }
     let env = build_env(c);
     let env_bytes: usize = env.iter().map(|(k, v)| k.len() + v.len() + 2).sum();
+    // fixed arguments: only where they leave room for the longest argument
+    let longest_arg = args.iter().map(|a| a.len()).max().unwrap_or(0);
+    let mut fixed_total = c.fixed as usize;
+    if fixed_total + fixed_total / 1000 * 8 + 64 + rec_path().len() + 2048 + 4096 + env_bytes + env.len() * 8 + longest_arg.min(MAX_ARG_STRLEN) + 9 + 4096 > budget(c.stack) {
+        fixed_total = 0;
+    }
+    let fixed_args: Vec<OsString> = {
+        let mut v = vec![];
+        let mut left = fixed_total;
+        while left > 0 {
+            let n = left.min(20_000);
+            v.push(OsString::from("F".repeat(n - 1)));
+            left -= n;
+        }
+        v
+    };
+    if c.opt == 2 && fixed_total > 0 {
+        let n = opts.len();
+        opts[n - 1] = (c.opt_value + fixed_total + 16).to_string().into();
+    }
+    let mut cmd: Vec<OsString> = vec![rec_path()];
+    cmd.extend(fixed_args.iter().cloned());
     let bo = BinOpts { clear_env: true, env: env.clone(), stack_limit: Some(stack_bytes(c.stack)), timeout_s: 300, ..Default::default() };
-    let run = run_xargs(ctx, &opts, &[rec_path()], &input, "", bo);
+    let run = run_xargs(ctx, &opts, &cmd, &input, "", bo);
     let b = budget(c.stack);
     let total_with_ptrs: usize = args.iter().map(|a| a.len() + 1 + 8).sum::<usize>() + env_bytes + env.len() * 8;
     let near_limit = args.iter().any(|a| a.len() + 1 <= MAX_ARG_STRLEN && a.len() + 3 >= MAX_ARG_STRLEN);
@@ -282,7 +307,7 @@ pub fn check(ctx: &mut Ctx, c: &Case) -> Outcome {
     };
     let desc = || {
         format!(
-            "xargs {} rec  < {} NUL-separated arguments ({} bytes, profile {prof}, longest {}), RLIMIT_STACK {} (kernel budget {b}), environment {} entries / {env_bytes} bytes\nexit {:?} signal {:?}\nstderr {:?}\ninvocations recorded: {} (arguments delivered: {})",
+            "xargs {} rec [{fixed_total} bytes of fixed arguments]  < {} NUL-separated arguments ({} bytes, profile {prof}, longest {}), RLIMIT_STACK {} (kernel budget {b}), environment {} entries / {env_bytes} bytes\nexit {:?} signal {:?}\nstderr {:?}\ninvocations recorded: {} (arguments delivered: {})",
             opts.iter().map(|o| o.to_string_lossy().into_owned()).collect::<Vec<_>>().join(" "),
             args.len(),
             input.len(),
@@ -301,11 +326,14 @@ pub fn check(ctx: &mut Ctx, c: &Case) -> Outcome {
     if !run.out.ordinary() {
         return fail(format!("C06:abnormal-termination:{prof}"), desc());
     }
-    let delivered: Vec<&Vec<u8>> = run.records.iter().flat_map(|r| r.args.iter()).collect();
+    if run.records.iter().any(|r| r.args.len() < fixed_args.len() || r.args.iter().zip(&fixed_args).any(|(a, f)| a.as_slice() != f.as_encoded_bytes())) {
+        return fail(format!("C06:fixed-arguments-changed:{prof}"), desc());
+    }
+    let delivered: Vec<&Vec<u8>> = run.records.iter().flat_map(|r| r.args.iter().skip(fixed_args.len())).collect();
     // An argument within the per-argument limit may still be too large for the whole budget
     // (base command, environment, pointers, headroom): nobody can pass it, and the statement only
     // requires that no rejected command line is built.  `tight(a)`: not certain to fit.
-    let base_cost = rec_path().len() + 1 + 8 + 16 + 2048 + 4096 + env_bytes + env.len() * 8;
+    let base_cost = rec_path().len() + 1 + 8 + 16 + 2048 + 4096 + env_bytes + env.len() * 8 + fixed_total + fixed_args.len() * 8;
     let tight = |a: &Vec<u8>| a.len() + 1 + 8 + base_cost > b;
     match c.oversize {
         None => {
@@ -357,6 +385,8 @@ pub fn check(ctx: &mut Ctx, c: &Case) -> Outcome {
         .class_if(c.oversize.is_some(), "oversized-argument")
         .class_if(c.content == 1, "multi-byte-characters")
         .class_if(c.content == 2, "non-utf8-bytes")
+        .class_if(fixed_total > 0, "fixed-arguments")
+        .class_if(fixed_total > 2048 && total_with_ptrs > b, "fixed-arguments-larger-than-the-headroom-and-several-invocations")
         .class(match c.stack {
             0 => "stack-256KiB",
             1 => "stack-1MiB",
